@@ -243,8 +243,30 @@ def t17_fast(run, fx):
             import re
             m = re.search(r"u\{([0-9a-fA-F]+)\}", str(ys[3]))
             k = int(m.group(1), 16) if m else None
-        ok = (op == "Le" and k is not None and k <= 0x2FF) or (op == "Lt" and k is not None and k <= 0x300)
-        why = "%s %s" % (op, hex(k) if isinstance(k, int) else k)
+        if k is None:
+            # constant on the left: k op c  ==  c flip(op) k
+            xs = sym.strip(x)
+            k = xs[1] if xs[0] == "c" else None
+            if isinstance(k, str) and len(k) == 1:
+                k = ord(k)
+            if k is None and xs[0] == "c" and len(xs) > 3:
+                import re
+                m = re.search(r"u\{([0-9a-fA-F]+)\}", str(xs[3]))
+                k = int(m.group(1), 16) if m else None
+            op = guards.CMP_FLIP.get(op, op)
+        # which side of the comparison consults the table? It must be the side every c >= U+0300 takes, whichever way the test is written
+        tbl = [bi for bi, t in b.calls() if (t["callee"].get("path") or "").endswith("get_canonical_combining_class")]
+        on_true = bool(tbl) and tb is not None and all(b.dominates(tb, bi) for bi in tbl)
+        on_false = bool(tbl) and fb_ is not None and all(b.dominates(fb_, bi) for bi in tbl)
+        if not isinstance(k, int):
+            ok = False
+        elif on_false:
+            ok = (op == "Le" and k <= 0x2FF) or (op == "Lt" and k <= 0x300)
+        elif on_true:
+            ok = (op == "Gt" and k <= 0x2FF) or (op == "Ge" and k <= 0x300)
+        else:
+            ok = False
+        why = "%s %s%s" % (op, hex(k) if isinstance(k, int) else k, "" if (on_true or on_false) else ", table lookup on neither side")
     else:
         why = "%d comparison(s) and %d predicate call(s) decide the fast path" % (len(conds), len(calls))
     uses_table = any((t["callee"].get("path") or "").endswith("get_canonical_combining_class") for _, t in b.calls())
@@ -285,6 +307,12 @@ def t17_ya(run, fx):
                 k = cv(z)
                 if k is not None:
                     eqs.add(k)
+    # `matches!((a, b), (YA, NUKTA))` tests the characters with value switches instead of `==`
+    for bi, blk in enumerate(b.blocks):
+        t = blk["t"]
+        if t["k"] == "switch" and b.reachable(bi) and t.get("dty") == "char":
+            for v, _ in t["arms"]:
+                eqs.add(v)
     preds = [c for tb, fb_, c, sw in guards.bool_call_conditions(b, prov) if not (c[4] or c[1] or "").endswith(("::lt", "::le", "::gt", "::ge"))]
     if eqs == {0x09AF, 0x09BC} and not preds:
         run.ok(rule, "recompose_bengali_ya_nukta: tests == U+09AF and == U+09BC only")
